@@ -92,7 +92,7 @@ pub fn run_case(ctx: &Ctx, rep: &mut Report, profile: Profile, case_seed: u64, v
 		sweep::run_sweep(ctx, rep, case_seed, variant);
 		return
 	}
-	if matches!(profile, Profile::C09 | Profile::C01) && variant % 16 == 7 {
+	if matches!(profile, Profile::C09 | Profile::C01 | Profile::C14) && variant % 16 == 7 {
 		// a large index migrated in several batches (C09); for C01 the same scenario is "every key
 		// keeps returning its latest value" over a key set of ten thousand
 		crate::bulk::run_bulk(ctx, rep, profile.name(), case_seed, variant);
